@@ -4,6 +4,7 @@ import DinoProofs.Lemmas.ScalingHS
 import DinoProofs.Lemmas.ScalingStep
 import DinoProofs.Lemmas.ScalingTraj
 import DinoProofs.Lemmas.Units
+import Dino.Lin
 import Mathlib.Algebra.Algebra.Prod
 import Mathlib.Tactic.NormNum
 
@@ -492,9 +493,10 @@ example : (MoistPrimitiveEquationsWithCloudMoisture.explicitTerms toyEq toyState
 example : (toyEq.explicitTerms toyState.state).divergence ≠ (actTend toyG (toyEq.explicitTerms toyState.state)).divergence := by
   decide +kernel
 
-/-- a wrong exponent is seen: with gravity scaled like a velocity (`wV`) instead of an acceleration
- (`wA`) the equivariance fails on the example (the orography term) -/
-example :
+/-- NEGATIVE WITNESS (indexed): a wrong exponent is seen. With gravity scaled like a velocity (`wV`) instead of
+ an acceleration (`wA`) the equivariance `dry_explicitTerms_equivariant` fails on the toy problem (through the
+ orography term of the divergence tendency) -/
+theorem gravity_scaled_as_velocity_breaks_equivariance :
     (({ actEq toyG toyEq with phys := { actPhys toyG toyEq.phys with g := toyG.wV * toyEq.phys.g } }).explicitTerms
         (actState toyG 13 toyOps.oneModal toyState.state)).divergence
       ≠ (actTend toyG (toyEq.explicitTerms toyState.state)).divergence := by
@@ -506,6 +508,42 @@ def eye5 : List (List ℚ) := [[1, 0, 0, 0, 0], [0, 1, 0, 0, 0], [0, 0, 1, 0, 0]
 
 theorem toyConstMode : ConstMode toyEq 2 (fun _ => eye5) :=
   ⟨by decide +kernel, by decide +kernel, by decide +kernel⟩
+
+/-- a GENUINE inverse for `η = 1/10 ≠ 0`: the matrices `1 − ηL` of the toy problem at total wavenumbers `l = 0`
+ (`λ = 0`) and `l = 1` (`λ = −2`) are `toyEq.implicitTermMatrix (1/10) l` (two uneven layers, `T_ref = 250, 280`),
+ and `toyInv l` are their exact inverses (rational Gauss–Jordan elimination; both products are checked below) -/
+def toyInv : ℕ → List (List ℚ)
+  | 0 => [[1, 0, 0, 0, 0], [0, 1, 0, 0, 0], [-37 / 7, -2 / 3, 1, 0, 0], [-4, -10 / 3, 0, 1, 0],
+          [-1 / 30, -1 / 15, 0, 0, 1]]
+  | _ => [[83379000 / 415559483, -81795000 / 415559483, 39882955 / 415559483, 40186027 / 415559483,
+             -1181205900 / 415559483],
+          [-41328000 / 415559483, 74184750 / 415559483, -19768560 / 415559483, -26963937 / 831118966,
+             5992405020 / 415559483],
+          [-2892159000 / 2908916381, 382888500 / 415559483, 217928618 / 415559483, -203423878 / 415559483,
+             2248580220 / 415559483],
+          [-195756000 / 415559483, 79897500 / 415559483, -93636620 / 415559483, 299755270 / 415559483,
+             -15249859800 / 415559483],
+          [-24100 / 415559483, -2219150 / 415559483, -69167 / 2493356898, -1322209 / 1246678449,
+             55439345 / 415559483]]
+
+/-- the matrices being inverted really are non-trivial (`η ≠ 0`: the `l = 1` block couples `δ`, `T'`, `ln p_s`) -/
+example : toyEq.implicitTermMatrix (1 / 10) 1
+    = [[1, 0, -287 / 600, -2009 / 3000, -287 / 2], [0, 1, 0, -287 / 1500, -4018 / 25], [37 / 7, 2 / 3, 1, 0, 0],
+       [4, 10 / 3, 0, 1, 0], [1 / 30, 1 / 15, 0, 0, 1]] := by decide +kernel
+
+/-- `toyInv l` is the two-sided inverse of `1 − ηL` at `η = 1/10`, for both total wavenumbers of the toy grid -/
+theorem toyInv_is_inverse :
+    ∀ l < 2, Lin.matMul (toyEq.implicitTermMatrix (1 / 10) l) (toyInv l) 5 = eye5 ∧
+      Lin.matMul (toyInv l) (toyEq.implicitTermMatrix (1 / 10) l) 5 = eye5 := by decide +kernel
+
+/-- **`ConstMode` with a genuine inverse at `η ≠ 0`**: a uniform shift of `ln p_s` is a fixed point of the true
+ inverse of `1 − ηL` (the `l = 0` matrix has `λ = 0`, so its last column is the unit vector) -/
+theorem toyConstMode_genuine : ConstMode toyEq 2 toyInv :=
+  ⟨by decide +kernel, by decide +kernel, by decide +kernel⟩
+
+/-- … while the inverse is not the identity and really moves a state: `implicit_inverse` with `toyInv` changes
+ the toy state -/
+example : (toyEq.implicitInverse toyInv toyState.state).divergence ≠ toyState.state.divergence := by decide +kernel
 
 /-- T12.2 for the classes: a three-step history (Euler, Crank–Nicolson RK2, Euler) of the cloud class on the toy
  problem with concrete inverses (all hypotheses instantiated) -/
@@ -519,6 +557,19 @@ example :
   pe_history_commutes toyEq toyG_valid toyLaws toyProj .cloud 13 2 rfl (fun _ _ => eye5)
     (fun _ _ => actInverse toyG 2 eye5) (fun _ => invScaled_of_actInverse toyG_valid 2 _) (fun _ => toyConstMode)
     (fun _ _ => rfl) (histScaled_scale_dt _ _ _ _) toyState
+
+/-- … and with the genuine inverse: one backward-forward Euler step of size `dt = 1/10` (so `η = 1/10`, the value
+ `toyInv` inverts) of the cloud class, under the change of all four units -/
+example :
+    Invariants.runHistory (Invariants.peImEx .cloud (actEq toyG toyEq) (fun _ l => actInverse toyG 2 (toyInv l)))
+        ([(1 / 10, Invariants.Scheme.bfe)].map fun q => ⟨q.2, toyG.t * q.1, []⟩)
+        (Invariants.TM.val (actStateT toyG 13 toyOps.oneModal toyState))
+      = (Invariants.runHistory (Invariants.peImEx .cloud toyEq (fun _ => toyInv))
+          ([(1 / 10, Invariants.Scheme.bfe)].map fun q => ⟨q.2, q.1, []⟩)
+          (Invariants.TM.val toyState)).map (tmMap (actStateT toyG 13 toyOps.oneModal)) :=
+  pe_history_commutes toyEq toyG_valid toyLaws toyProj .cloud 13 2 rfl (fun _ => toyInv)
+    (fun _ l => actInverse toyG 2 (toyInv l)) (fun _ => invScaled_of_actInverse toyG_valid 2 _)
+    (fun _ => toyConstMode_genuine) (fun _ l => by cases l <;> rfl) (histScaled_scale_dt _ _ _ _) toyState
 
 /-- `InvScaled` is satisfiable: for any family of inverses, the scaled family of `actInverse` -/
 example (inv : ℕ → List (List ℚ)) : InvScaled toyG 2 inv (fun l => actInverse toyG 2 (inv l)) :=
